@@ -60,6 +60,8 @@ def main():
     ap.add_argument("--id")
     ap.add_argument("-j", type=int, default=4)
     ap.add_argument("--keep", action="store_true")
+    ap.add_argument("--sample", type=int, default=0, help="run only N fixtures per property, chosen by --seed")
+    ap.add_argument("--seed", type=int, default=0)
     a = ap.parse_args()
     jobs = []
     d = os.path.join(VERIF, "fixtures", "mutants")
@@ -69,9 +71,12 @@ def main():
         prop = f[:-5]
         if a.prop and a.prop != prop:
             continue
-        for m in json.load(open(os.path.join(d, f))):
-            if a.id and a.id != m["id"]:
-                continue
+        ms = [m for m in json.load(open(os.path.join(d, f))) if not (a.id and a.id != m["id"])]
+        if a.sample and len(ms) > a.sample:
+            import random
+            rnd = random.Random(a.seed)
+            ms = rnd.sample(ms, a.sample)
+        for m in ms:
             jobs.append((prop, m))
     bad = 0
     with cf.ThreadPoolExecutor(a.j) as ex:
